@@ -636,11 +636,27 @@ func (fc *FnCtx) evalCall(x *ast.CallExpr, env *Env) Val {
 			panic(specErr("row: argument must be a slice"))
 		}
 		et := v.T.Underlying().(*types.Slice).Elem()
-		if isObjectType(et) || len(cellLeaves(et)) != 1 || leafSort(cellLeaves(et)[0].kind) != "Int" {
-			panic(specErr("row: element type must be an integer or a reference"))
+		suffix := ""
+		if len(x.Args) == 2 {
+			// row(s, "len"): one component of composite elements (slices: base/off/len/cap; interfaces: pl/tag)
+			lit, ok := x.Args[1].(*ast.BasicLit)
+			if !ok {
+				panic(specErr("row: second argument must be a string literal"))
+			}
+			sfx, _ := strconv.Unquote(lit.Value)
+			suffix = "." + sfx
+		}
+		found := false
+		for _, lf := range cellLeaves(et) {
+			if lf.suffix == suffix && leafSort(lf.kind) == "Int" {
+				found = true
+			}
+		}
+		if isObjectType(et) || !found {
+			panic(specErr("row: element type must be an integer or a reference (or name a component: row(s, \"len\"))"))
 		}
 		fc.vc.eng.noteRegionType("elem<"+leafTypeName(et)+">", et, "")
-		reg := fc.vc.region(env.state(), "elem<"+leafTypeName(et)+">", 2, "Int")
+		reg := fc.vc.region(env.state(), "elem<"+leafTypeName(et)+">"+suffix, 2, "Int")
 		return Val{K: KArr, S: fc.vc.rowOf(reg, v.Sl.Base)}
 	case "regionof":
 		// regionof("pkg.T.f"): a one-dimensional integer heap region (field f of every T, by reference) as an array
@@ -690,6 +706,24 @@ func (fc *FnCtx) evalCall(x *ast.CallExpr, env *Env) Val {
 			}
 		}
 		return boolV(fmt.Sprintf("(forall ((%s Int)) (=> (and (<= 0 %s) (< %s %s)) (exists ((%s Int)) (and (<= 0 %s) (< %s %s) %s))))", qi, qi, qi, v.Sl.Len, qj, qj, qj, v.Sl.Len, and(eqs...)))
+	case "mkkey":
+		// mkkey(m, f1, f2, ...): a value of map m's struct key type built from its fields
+		m := arg(0)
+		mt, ok := m.T.Underlying().(*types.Map)
+		if !ok || structOf(mt.Key()) == nil {
+			panic(specErr("mkkey: first argument must be a map with a struct key"))
+		}
+		su := structOf(mt.Key())
+		if su.NumFields() != len(x.Args)-1 {
+			panic(specErr("mkkey: wrong number of key fields"))
+		}
+		kv := Val{K: KStruct, T: mt.Key()}
+		for i := 1; i < len(x.Args); i++ {
+			f := arg(i)
+			f.T = su.Field(i - 1).Type()
+			kv.Fs = append(kv.Fs, f)
+		}
+		return kv
 	case "indom":
 		// indom(m, k): key k is present in map m
 		m := arg(0)
